@@ -4,6 +4,7 @@ package main
 // C05-ingress, C06, C09, C10 and the general ledger correspondence).
 
 import (
+	"context"
 	"fmt"
 	"math/big"
 	"sync"
@@ -406,7 +407,7 @@ func staleLookups(c *Ctx, round int) {
 					vs[i], errs[i] = a.ab.CreateLeaf(w.ctx, &cp)
 				}(i)
 			}
-			time.Sleep(40 * time.Millisecond) // all of them are past the look-up and queue on the lock
+			time.Sleep(80 * time.Millisecond) // all of them are past the look-up and queue on the lock
 		})
 		wg.Wait()
 		snap := w.Snap(a)
@@ -420,7 +421,13 @@ func staleLookups(c *Ctx, round int) {
 		}
 		for i := 0; i < k; i++ {
 			if errs[i] != nil {
-				w.c.Line("LPROP %d %s 0 | %s | %s", a.id, tf, errTag(errs[i]), snap)
+				// a call that was scheduled so late that its unlocked look-up already saw the winner is an
+				// ordinary whole call (refused by the look-up), not a locked body with a stale answer
+				op := "LPROP"
+				if errTag(errs[i]) == "trxExists" {
+					op = "PROP"
+				}
+				w.c.Line("%s %d %s 0 | %s | %s", op, a.id, tf, errTag(errs[i]), snap)
 				w.after(a, "propose.stale", errs[i])
 			}
 		}
@@ -472,7 +479,11 @@ func staleLookups(c *Ctx, round int) {
 		}
 		for i := 0; i < k; i++ {
 			if errs[i] != nil {
-				w.c.Line("LADD %d %d | %s | %s", a.id, name, errTag(errs[i]), snap)
+				op := "LADD"
+				if errTag(errs[i]) == "leafExists" {
+					op = "ADD" // its look-up already saw the winner: an ordinary whole call
+				}
+				w.c.Line("%s %d %d | %s | %s", op, a.id, name, errTag(errs[i]), snap)
 				w.after(a, "add.stale", errs[i])
 			}
 		}
@@ -538,7 +549,11 @@ func staleLookups(c *Ctx, round int) {
 		}
 		for i := range vs {
 			if errs[i] != nil {
-				w.c.Line("LADD %d %d | %s | %s", a.id, w.DefV(&vs[i]), errTag(errs[i]), snap)
+				op := "LADD"
+				if errTag(errs[i]) == "leafExists" {
+					op = "ADD"
+				}
+				w.c.Line("%s %d %d | %s | %s", op, a.id, w.DefV(&vs[i]), errTag(errs[i]), snap)
 				w.after(a, "add.stale", errs[i])
 			}
 		}
@@ -554,6 +569,55 @@ func staleLookups(c *Ctx, round int) {
 		}
 		c.Distinct(fmt.Sprintf("stale-two-sealers/wins=%d/holders=%d", wins, holders))
 	}
+}
+
+// cancelledProposal: a proposal whose caller has gone away (context cancelled or past its deadline) while
+// the ledger holds a tentative spice tip. Whatever the node does with that tip, vertices and index stay in
+// step, and the tip's transaction cannot be sealed a second time. The interrupted call itself is not
+// replayed on the model (the model has no notion of a caller's context): the model is re-seeded after it.
+func cancelledProposal(c *Ctx, round int) {
+	w := NewWorld(c)
+	defer w.Close()
+	a := w.NewNode()
+	for i := 0; i < 3; i++ {
+		w.NewWallet()
+	}
+	if _, err := w.Genesis(a, w.wallets[0].Address(), spice.Melange{Currency: 1000}); err != nil {
+		return
+	}
+	var last transaction.Transaction
+	for i := 0; i < 2+round%3; i++ {
+		last = w.NewTrx(w.wallets[0], w.wallets[1+i%2].Address(), spice.Melange{Currency: 5}, nil)
+		w.Propose(a, &last) // the last one stays a tentative tip with ancestors
+	}
+	info := map[string]interface{}{"section": "ledger", "scenario": "cancelled-proposal", "round": round}
+	ctx, cancel := context.WithCancel(context.Background())
+	if round%2 == 0 {
+		cancel()
+	} else {
+		ctx, cancel = context.WithDeadline(context.Background(), time.Now().Add(-time.Second))
+	}
+	defer cancel()
+	t := w.NewTrx(w.wallets[0], w.wallets[2].Address(), spice.Melange{Currency: 1}, nil)
+	_, err := a.ab.CreateLeaf(ctx, &t)
+	c.Count("cancelled-proposal." + errTag(err))
+	w.Seed(a) // takes a snapshot and runs the ledger oracles on it (vertex / index consistency is C03's)
+	// the tip's transaction offered again, then a proposal that builds on whatever is there
+	cp := last
+	w.Propose(a, &cp)
+	t3 := w.NewTrx(w.wallets[0], w.wallets[2].Address(), spice.Melange{Currency: 2}, nil)
+	w.Propose(a, &t3)
+	holders := 0
+	sn := a.ab.VerifSnapshot()
+	for _, v := range sn.Vertices {
+		if v.Transaction.Hash == last.Hash {
+			holders++
+		}
+	}
+	if holders > 1 {
+		c.Violate("C03", "transaction-sealed-again-after-interrupted-proposal", fmt.Sprintf("after a proposal with a cancelled context the transaction of the tentative tip is held by %d vertices", holders), info)
+	}
+	c.Distinct(fmt.Sprintf("cancelled-proposal/%d/holders=%d", round%2, holders))
 }
 
 var supplies = []spice.Melange{
@@ -580,6 +644,7 @@ func init() {
 		}
 		for r := 0; r < sr; r++ {
 			staleLookups(c, r)
+			cancelledProposal(c, r)
 		}
 		c.Sample(map[string]interface{}{"scenarios": scen, "example": "GEN n0 -> w0 1000; PROP n0 w0->w1 1.25; ADD n1 v2; PROP n1 w1->w2 ...; BAL ...; RETRY ..."})
 		_ = big.NewInt
